@@ -36,6 +36,9 @@ type cacheModel struct {
 	// their platform): a later certain recording under another loose variant of the same
 	// strict key must not clear it
 	uncL map[string]bool
+	// nhDirty: an invocation of this machine ended before its restores were compared (failed /
+	// faulted): what it fetched into the local cache meanwhile is unknown
+	nhDirty bool
 }
 
 func newCacheModel() *cacheModel {
@@ -946,6 +949,9 @@ func (w *wbuild) compareTwins(a, b *InvResult, req BuildReq, mA, mB *Machine) {
 // checkBuild compares one invocation with the reference model and updates the model.
 func (w *wbuild) checkBuild(res *InvResult, req BuildReq, opts InvOpts, cm *cacheModel, ext0 map[string]string) {
 	w.recordedNow = map[string]bool{}
+	if res.ExitCode != 0 || res.Cause != "return" && res.Cause != "exit" {
+		cm.nhDirty = true
+	}
 	s := w.s
 	u := w.U
 	report := func(prop, class, sig, detail string) {
@@ -1407,6 +1413,9 @@ func (w *wbuild) checkBuild(res *InvResult, req BuildReq, opts InvOpts, cm *cach
 			e := cm.nhLast[kL]
 			if e == "" && w.remoteNH != nil {
 				e = w.remoteNH[kL]
+				if cm.nhDirty {
+					e = "?" // an earlier, failed invocation of this machine may have fetched an older result
+				}
 				cm.nhLast[kL] = e
 			}
 			if e == "" || e == "?" || unc0[kS] || cm.unc[kS] || faulted || w.remoteLossy || w.depToggled(u, sp) {
